@@ -420,6 +420,10 @@ func (a *CBOAnalyzer) collectImports(ast *parser.Node) map[string]string {
 					imports[alias] = module
 				}
 			}
+			// Modules imported without "as" have no alias child: import module
+			for _, name := range a.unaliasedNames(node) {
+				imports[name] = name
+			}
 		case parser.NodeImportFrom:
 			// from module import name as alias
 			module := node.Module
@@ -435,11 +439,33 @@ func (a *CBOAnalyzer) collectImports(ast *parser.Node) map[string]string {
 					imports[alias] = module + "." + name
 				}
 			}
+			// Names imported without "as" have no alias child: from module import name
+			for _, name := range a.unaliasedNames(node) {
+				imports[name] = module + "." + name
+			}
 		}
 		return true
 	})
 
 	return imports
+}
+
+// unaliasedNames returns the names of an import statement that are bound
+// under their own name, i.e. those without an "as" alias child
+func (a *CBOAnalyzer) unaliasedNames(importNode *parser.Node) []string {
+	aliased := make(map[string]bool)
+	for _, child := range importNode.Children {
+		if child != nil && child.Type == parser.NodeAlias {
+			aliased[child.Name] = true
+		}
+	}
+	var names []string
+	for _, name := range importNode.Names {
+		if !aliased[name] && name != "*" {
+			names = append(names, name)
+		}
+	}
+	return names
 }
 
 // extractClassName extracts class name from a node
